@@ -17,6 +17,7 @@ MODULES = {
     "C03": ("lockstep", "run_c03"),
     "C04": ("c04_c09", "run_c04"),
     "C05": ("c05", "run"),
+    "C06": ("c06", "run"),
     "C07": ("c07", "run"),
     "C08": ("c08", "run"),
     "C09": ("c04_c09", "run_c09"),
